@@ -11,6 +11,7 @@ import (
 	"encoding/json"
 	"fmt"
 	"math"
+	"math/big"
 	"os"
 	"sort"
 	"strconv"
@@ -269,3 +270,18 @@ func Or(cs ...bool) bool {
 	return false
 }
 func Implies(a, b bool) bool { return !a || b }
+
+// CmpIntFloat compares an integer with a float64 exactly (-1, 0, +1); NaN compares as +1.
+func CmpIntFloat(v int64, f float64) int {
+	bf := new(big.Float).SetInt64(v)
+	if math.IsNaN(f) {
+		return 1
+	}
+	if math.IsInf(f, 1) {
+		return -1
+	}
+	if math.IsInf(f, -1) {
+		return 1
+	}
+	return bf.Cmp(big.NewFloat(f))
+}
